@@ -917,10 +917,12 @@ class _NumericOperationsImpl(OperationsBlock):
         if isinstance(x.dtype, dtypes.NullableCore):
             # NumPy appears to just ignore the mask so we do the same
             x = x.values
-        return x._transmute(
+        # onnxruntime only implements Trilu for (u)int64/int32/float32/float64: widen the rest
+        return _via_i64_f64(
             lambda core: opx.trilu(
                 core, k=ndx.asarray(k, dtype=dtypes.int64)._core(), upper=0
-            )
+            ),
+            [x],
         )
 
     @validate_core
@@ -928,10 +930,12 @@ class _NumericOperationsImpl(OperationsBlock):
         if isinstance(x.dtype, dtypes.NullableCore):
             # NumPy appears to just ignore the mask so we do the same
             x = x.values
-        return x._transmute(
+        # onnxruntime only implements Trilu for (u)int64/int32/float32/float64: widen the rest
+        return _via_i64_f64(
             lambda core: opx.trilu(
                 core, k=ndx.asarray(k, dtype=dtypes.int64)._core(), upper=1
-            )
+            ),
+            [x],
         )
 
     @validate_core
